@@ -257,8 +257,8 @@ inline bool plan_effect(Model const& M, ModelTraits const& T, Op const& op, Effe
 			set_dims(a, D, b0.n);
 			a.v = b0.v;
 			if(T.pocca) a.arena = b0.arena;
-			if(same && a0.count() > 0) e.expect_no_alloc = e.expect_base_unchanged = true;
-			e.probe_id = same ? P_ASSIGN_SAME_EXT : P_ASSIGN_DIFF_EXT;
+			if(same && a0.count() > 0 && !(T.pocca && a0.arena != b0.arena)) e.expect_no_alloc = e.expect_base_unchanged = true;
+			e.probe_id = (a0.arena != b0.arena && same && a0.count() > 0) ? P_COPY_OTHER_ARENA : same ? P_ASSIGN_SAME_EXT : a0.count() == 0 ? P_ASSIGN_FROM_EMPTY : b0.count() == 0 ? P_ASSIGN_TO_EMPTY : P_ASSIGN_DIFF_EXT;
 		} else if(op.kind == O_ASSIGN_MOVE) {
 			if(T.static_arrays) {  // static_array move assignment: element-wise move, extents equal
 				a.v      = b0.v;
@@ -290,6 +290,7 @@ inline bool plan_effect(Model const& M, ModelTraits const& T, Op const& op, Effe
 			if(!T.pocs) std::swap(a.arena, b.arena);  // allocators stay
 			e.expect_no_alloc = true;
 			if(!T.static_arrays) e.expect_no_elem_events = true;
+			if(a0.arena != b0.arena) e.probe_id = P_SWAP_OTHER_ARENA;
 			var(op.var ? "adl" : "member");
 		}
 		return true;
